@@ -247,10 +247,17 @@ def part_collision(ctx, part):
 PARTS = [part_lookup_corr, part_e2e, part_collision]
 
 
+PRIVATE_MODULE = ("module Zm\n  private\n  def m1\n    1\n  end\nend\nclass Zk\n  include Zm\n  def k1\n    m1\n  end\nend\n"
+                  "z = Zk.new\nq = 2\ndbtp z.k1\n")
+
+
 def replay_finding(ctx, k):
     if k["id"] == "C16-configured-name":
         with C.Workdir() as wd:
             return "t.rb:::8:::Symbol" not in wd.ti([wd.write(COLLISION, "t.rb")]).out
+    if k["id"] == "C16-private-module-method":
+        with C.Workdir() as wd:
+            return "t.rb:::15:::Integer" not in wd.ti([wd.write(PRIVATE_MODULE, "t.rb")]).out
     return None
 
 
